@@ -315,3 +315,101 @@ def weiFitCompleteBinned (h : Hist α) : FitRes α :=
     fit2Result mu (cgd (MinCfg.null : MinCfg α) (weiBinnedFunc h bins mu) none #[log lambda, log tau])
 
 end EaselModel.Stats
+
+namespace EaselModel.Stats
+open Num
+variable {α : Type} [Num α]
+
+/-! ## gamma, binned (`esl_gam_FitCompleteBinned`: moments of the bin midpoints, then bracketing + bisection on `tau_function`) -/
+
+/-- `tau_function()` (`esl_stats_Psi`'s status is ignored by the code; `tau > 0` on every path) -/
+def tauFunction (tau mean logsum : α) : α :=
+  let psitau := match psiSt tau with | some p => p | none => zero / zero
+  ((log tau - psitau) - log mean) + logsum
+
+/-- `tau_by_moments_binned()` over the bins `cmin+1..imax`: `none` = "No point can be < mu" → `(tau, mean, logsum)` -/
+def tauByMomentsBinned (h : Hist α) (bins : List (Int × Nat)) (mu : α) : Option (α × α × α) :=
+  let r := bins.foldl (fun (acc : Option (α × α × α × α)) (ic : Int × Nat) =>
+    match acc with
+    | none => none
+    | some (sum, mean, var, logsum) =>
+      if ic.2 == 0 then acc else
+      let ai := h.lbound ic.1
+      let bi := h.ubound ic.1
+      let ci := ai + (0.5 : α) * (bi - ai)
+      if ltb ci mu then none else
+      let o : α := ofInt ic.2
+      some (sum + o, mean + o * (ci - mu), var + o * (ci - mu) * (ci - mu),
+            logsum + (if gtb ci mu then o * log (ci - mu) else zero))) (some (zero, zero, zero, zero))
+  match r with
+  | none => none
+  | some (sum, mean, var, logsum) =>
+    let var := if gtb sum one then (var - mean * mean / sum) / (sum - one) else zero
+    let dv := if gtb sum zero then sum else one
+    let mean := mean / dv
+    let logsum := logsum / dv
+    let tau := if ltb var (1e-6 : α) || eqb mean zero then one else mean * mean / var
+    some (tau, mean, logsum)
+
+/-- `for (i = 0; i < maxit; i++) { b = a*2; fb = f(b); if (fb < 0) break; a = b; }` → `(i, a, b)` -/
+def gamBracketRight (f : α → α) : Nat → Nat → α → α → Nat × α × α
+  | 0, i, a, b => (i, a, b)
+  | k+1, i, a, _ =>
+    let b := a * (2.0 : α)
+    if ltb (f b) zero then (i, a, b) else gamBracketRight f k (i+1) b b
+
+/-- `for (…) { a = b/2; fa = f(a); if (fa > 0) break; b = a; }` → `(i, a, b)` -/
+def gamBracketLeft (f : α → α) : Nat → Nat → α → α → Nat × α × α
+  | 0, i, a, b => (i, a, b)
+  | k+1, i, _, b =>
+    let a := b / (2.0 : α)
+    if gtb (f a) zero then (i, a, b) else gamBracketLeft f k (i+1) a a
+
+/-- the bisection loop → `(i, c)` -/
+def gamBisect (f : α → α) : Nat → Nat → α → α → α → Nat × α
+  | 0, i, _, _, c => (i, c)
+  | k+1, i, a, b, _ =>
+    let c := (a + b) / (2.0 : α)
+    let fc := f c
+    if gtb fc zero then
+      let a := c
+      if leb (b - a) (1e-6 : α) then (i, (a + b) / (2.0 : α)) else gamBisect f k (i+1) a b c
+    else if ltb fc zero then
+      let b := c
+      if leb (b - a) (1e-6 : α) then (i, (a + b) / (2.0 : α)) else gamBisect f k (i+1) a b c
+    else (i, c)
+
+/-- `esl_gam_FitCompleteBinned()` → `(mu, lambda, tau)` -/
+def gamFitCompleteBinned (h : Hist α) : FitRes α :=
+  match h.datasetIs with
+  | .trueCensored => .res .einval #[zero, zero, zero]            -- ESL_EXCEPTION: outputs untouched
+  | ds =>
+    let mu := match ds with
+      | .complete => if h.isRounded then h.lbound h.imin else h.xmin
+      | _ => h.phi
+    -- bins cmin+1 .. imax
+    match binRange { h with cmin := h.cmin + 1 } with
+    | none => .fault
+    | some bins =>
+      match tauByMomentsBinned h bins mu with
+      | none => .res .einval #[zero, zero, zero]                  -- (`status = (… != eslOK)`: the C code returns 1 = eslFAIL here; unreachable, see notes)
+      | some (c, mean, logsum) =>
+        if eqb c one then .res .ok #[mu, c / mean, c] else
+        let f := fun t => tauFunction t mean logsum
+        let fc := f c
+        let brk : Option (α × α) :=
+          if gtb fc zero then
+            let (i, a, b) := gamBracketRight f 100 0 c c
+            if i == 100 then none else some (a, b)
+          else if ltb fc zero then
+            let (i, a, b) := gamBracketLeft f 100 0 c c
+            if i == 100 then none else some (a, b)
+          else some (c, c)
+        match brk with
+        | none => .res .enohalt #[zero, zero, zero]
+        | some (a, b) =>
+          let (i, c) := gamBisect f 100 0 a b c
+          if i == 100 then .res .enohalt #[zero, zero, zero] else
+          .res .ok #[mu, (if gtb mean zero then c / mean else zero), c]
+
+end EaselModel.Stats
